@@ -1,32 +1,16 @@
 import Scfg.Props.C16Nodup
+import Scfg.Spec.IterSpec
 /-!
 # C16 — a decidable sufficient condition for `UniqueNames`
 
-`uniqueB H f` runs the iterator model below every region of the hierarchy and checks that what it
+`uniqueB H f` (Scfg/Spec/IterSpec.lean, so that the driver can run it on every real hierarchy) runs the iterator model below every region of the hierarchy and checks that what it
 yields there is not a member of the region's own level and shares nothing with what is yielded
 below a different region of the same level. `uniqueB_sound`: if it answers `true`, the hierarchy
 has `UniqueNames` — so `iterAll_nodup_of_uniqueB`: the iterator yields nothing twice, at every
 depth, on every hierarchy that passes this (computable) test.
 -/
 namespace Scfg.C16
-open Scfg Scfg.Model
-
-/-- what the iterator model yields below region `b`, or `none` if it does not answer -/
-def yieldBelow (H : Hier) (f : Nat) (b : Blk) : Option (List Name) :=
-  match iterAll H f b.name with
-  | .ok out => some out
-  | .error _ => none
-
-def uniqueB (H : Hier) (f : Nat) : Bool :=
-  H.all fun b => !b.isRegion ||
-    match yieldBelow H f b with
-    | none => false
-    | some out =>
-      out.all (fun x => (H.getIn? b.cont x).isNone) &&
-      H.all fun b2 => !(b2.isRegion && b2.cont == b.cont && b2.name != b.name) ||
-        match yieldBelow H f b2 with
-        | none => false
-        | some out2 => out.all (fun x => !out2.contains x)
+open Scfg Scfg.Model Scfg.Spec
 
 theorem getIn_mem (H : Hier) (c r : Name) (b : Blk) (h : H.getIn? c r = some b) :
     b ∈ H ∧ b.cont = c ∧ b.name = r := by
@@ -94,7 +78,7 @@ theorem iterAll_nodup_of_uniqueB (H : Hier) (f : Nat) (h : uniqueB H f = true) (
 end Scfg.C16
 
 namespace Scfg.C16
-open Scfg Scfg.Model
+open Scfg Scfg.Model Scfg.Spec
 /-- non-vacuity: the two-level hierarchy of Props/C16Iter.lean passes the test -/
 theorem okH2_uniqueB : uniqueB okH2 5 = true := by
   have y : yieldBelow okH2 5 okH2[2] = some ["1"] := by
